@@ -102,7 +102,8 @@ Ob0   == [nd    |-> Zero1,             \* destructor runs per object
           call  |-> [op |-> "-", a |-> 0, b |-> 0],
           must  |-> {},                \* C03: objects this call is obliged to destroy
           flags |-> {},                \* sticky: violated action properties
-          dcset |-> {},                \* sticky: objects whose destruction is the known finding D-C
+          dcset |-> {},
+          layout |-> 0, sig |-> <<>>, base |-> <<>>,   \* C09 (trace Monitor): per-call outcomes across heap layouts                \* sticky: objects whose destruction is the known finding D-C
           xblocks |-> 0,               \* library heap blocks that are neither an RcBox nor a link table
           ntrace |-> 0, npop |-> 0, nvisit |-> 0, nalloc |-> 0, nmember |-> 0, nlinks |-> 0,
           empty0 |-> FALSE]            \* C14: table of the call's object was empty at entry
@@ -729,7 +730,9 @@ StepDrop ==
                 x2 == [ob EXCEPT !.ntrace = @ + 1, !.npop = @ + t.npop, !.nvisit = @ + t.nvisit,
                                  !.nalloc = @ + 1, !.nlinks = @ + t.nlinks,
                                  !.nmember = @ + Cardinality(DOMAIN t.cyc),
-                                 !.flags = @ \cup (IF Stack = <<Top>> /\ ob.empty0 THEN {"C14"} ELSE {})]
+                                 !.flags = @ \cup (IF Stack = <<Top>> /\ ob.empty0 THEN {"C14"} ELSE {})
+                                                 \cup (IF t.nvisit > Cardinality(Made(led)) \/ t.npop > t.nlinks + 1
+                                                       THEN {"C15"} ELSE {})]
             IN IF t.bad # {}
                THEN Commit(h1, led, [x2 EXCEPT !.ub = @ \cup {<<"stale_links", k[2]>> : k \in t.bad}],
                            [ctl EXCEPT !.mode = "crashed"])
@@ -974,6 +977,19 @@ C08 == Quiescent /\ ob.ub = {} =>
            Intact(a) /\ ob.nd[a] = 0 /\ ~led.gone[a] => heap.links[a] = TableImplied(a)
 
 C14 == "C14" \notin ob.flags
+
+\* C15: every trace visits each object at most once and pops at most adoptions + 1 work items;
+\* while a collected group is being destroyed, dropping a handle to a fellow member is inert
+\* (it returns at the dead-check), so the destruction of a group of N objects never nests
+C15 == /\ "C15" \notin ob.flags
+       /\ \A i, j \in 1..Len(Stack) :
+            i < j /\ Stack[j].pc = "cdestroy" /\ Stack[i].pc = "drop"
+            /\ (\E k \in DOMAIN Stack[j].cyc : k[2] = Stack[i].o)
+            => heap.mem[Stack[i].o] = "alloc" /\ heap.strong[Stack[i].o] \in {0, UNINIT}
+
+\* C09: evaluated by the trace Monitor, which replays each script under several heap layouts
+\* and compares, call by call, what was destroyed and everything observable afterwards
+C09 == "C09" \notin ob.flags
 
 C16 == "C16" \notin ob.flags
 
